@@ -37,7 +37,8 @@ RULE = ("cases = device call sequences on a random optical field (N in {1,2,3,5,
         "all-zero, dtype complex/float/int) x drive container kind (int,float,bool,np.float64,ndarray,int ndarray,list,tuple,str,"
         "electrical_signal with/without noise, length-1 forms, mismatched lengths) x (bias,Vpi,loss_dB,ER_dB in the statement's ranges "
         "incl. ER 0/60, loss 0) x pol x/y/invalid; kinds: mzm, mzm_per (u vs u+2Vpi), mzm_er (on/off), mzm_forms / pm_forms "
-        "(one waveform through every container), pm, pm_add (PM(PM(x,a),b) vs PM(x,a+b)), laser (lw/rin/df present or not), mzm_bw "
+        "(one waveform through every container), pm, pm_add (PM(PM(x,a),b) vs PM(x,a+b)), laser (lw/rin/df present or not; time argument "
+        "float64 / float32 / int32 / int64), mzm_bw "
         "(BW given, partly from a small fixed set so that it recurs under different sampling rates, N around the filter padding 15, scipy "
         "sections spied, reference = Bessel filter designed afresh by scipy), mzm_bw_hist (one BW under 2-3 sampling rates in sequence and back). "
         "non-trivial = accepted call with N>=2 and a non-zero field; distinct by (kind, n_pol, noise kind, dtype, drive kinds, N, pol)")
@@ -311,7 +312,7 @@ def gen_cases(rng, tier):
         cases.append({"kind": "mzm_bw_hist", "field": fld, "BW": bw, "seq": [[a, b] for a, b in seq],
                       "calls": [dict(dev="mzm", drive=gen_drive(rng, kind, n), pol=rng.choice(["x", "y"]), **_params(rng))]})
     # LASER
-    nl = 60 if tier == "quick" else 50 * 8
+    nl = 90 if tier == "quick" else 50 * 8
     for i in range(nl):
         sps = rng.choice([4, 8, 16])
         R = rng.choice([1e9, 2.5e9, 10e9, 1e6])
@@ -332,8 +333,15 @@ def gen_cases(rng, tier):
             df = rng.choice([-1, 1]) * rng.uniform(0.51, 2) * fs
         if i % 10 == 0:
             rin = rng.choice([-60.0, -80.0])     # strong RIN: may hit the `min() < -1` rejection
-        cases.append({"kind": "laser", "field": None, "sps": sps, "R": R, "n": n,
-                      "p": rng.choice([0.0, 10.0, -3.0, 30.0, rng.uniform(-20, 20)]), "lw": lw, "rin": rin, "df": df,
+        # dtype of the time argument: the documented float64 grid j*dt, the same grid in float32, or an INTEGER grid
+        # (np.arange(N), int32/int64: a sample-index / integer-unit time axis; the offset is then in cycles per unit of t)
+        tdtype = rng.choice(["float64", "float64", "float64", "float32", "int32", "int64"])
+        if tdtype.startswith("int"):
+            dmode = rng.choice(["none", "bin", "any", "edge"])
+            df = {"none": None, "bin": rng.randrange(-(n // 2), n // 2 + 1) / max(n, 1), "any": rng.uniform(-0.49, 0.49),
+                  "edge": rng.choice([-0.5, 0.5])}[dmode]
+        cases.append({"kind": "laser", "field": None, "sps": sps, "R": R, "n": n, "tdtype": tdtype,
+                      "p": rng.choice([0.0, 10.0, -3.0, 30.0, 33.0, rng.uniform(-20, 20)]), "lw": lw, "rin": rin, "df": df,
                       "np_seed": rng.randrange(1 << 31), "calls": []})
     rng.shuffle(cases)
     # histories first: a violation that depends on what the process did before is then first reported on a self-contained case
@@ -366,8 +374,13 @@ def _run_laser(case, res):
         return v
     gv(sps=case["sps"], R=case["R"])
     res["fs"], res["dt"] = float(gv.fs), float(gv.dt)
-    t = np.arange(case["n"]) * gv.dt
-    res["t"] = [float(a) for a in t]
+    td = case.get("tdtype", "float64")
+    if td.startswith("int"):
+        t = np.arange(case["n"]).astype(td)
+    else:
+        t = (np.arange(case["n"]) * gv.dt).astype(td)
+    res["t"] = [float(a) for a in t]          # the values the code sees (exact in float64)
+    res["tstep"] = float(t[1] - t[0]) if case["n"] >= 2 else float(gv.dt)
     np.random.seed(case["np_seed"])
     np.random.normal = spy
     try:
@@ -593,7 +606,13 @@ def compare(case, res, reqs, replies):
                 a = F.c_rows(r["sig"])[0]
                 # phases up to |2 pi df t| ~ 1e3 rad are reduced by libm on both sides: allow 1e-9 relative to the amplitude
                 amp = math.sqrt(10.0 ** (case["p"] / 10.0 - 3.0))
-                if not F.close(a, m, amp, rel=1e-8):
+                rel = 1e-8
+                if case.get("tdtype") == "float32":
+                    # numpy 1.x keeps a float32 time grid in single precision (amplitude, and the offset phase 2 pi df t):
+                    # the float64 model is met to single-precision rounding of the amplitude and of the largest phase
+                    th = 2 * math.pi * abs(case["df"] or 0.0) * (max(abs(x) for x in res["t"]) if res["t"] else 0.0)
+                    rel = 2e-6 * (1.0 + th)
+                if not F.close(a, m, amp, rel=rel):
                     d = "shape" if a.shape != m.shape else f"max|diff|={F._maxdiff(a, m):.3e}"
                     out.append(f"laser: field differs from the model on the recorded draws ({d})")
         else:
@@ -780,21 +799,25 @@ def _oracle_laser(case, res):
         return v
     if case["rin"] is None:
         pw = sum(np.abs(e) ** 2 for e in rows)
-        if n and not np.all(np.abs(pw - P) <= 1e-12 * P):
-            v.append(("C06:laser-power", f"|E|^2 deviates from P={P:.6g} by {F._maxdiff(pw, np.full(n, P)):.3e} without RIN"))
+        # float32 time argument: the result is a single-precision array, |E|^2 = P to single-precision rounding (8 eps32)
+        ptol = 1e-6 if case.get("tdtype") == "float32" else 1e-12
+        if n and not np.all(np.abs(pw - P) <= ptol * P):
+            v.append(("C06:laser-power", f"|E|^2 deviates from P={P:.6g} by {F._maxdiff(pw, np.full(n, P)):.3e} without RIN (time argument dtype {case.get('tdtype', 'float64')}, lw={case['lw']}, df={case['df']})"))
         # spectral peak at df (oracle-only clause)
         narrow = case["lw"] is None or case["lw"] * n / fs <= 0.01
         if n >= 16 and narrow:
             spec = sum(np.abs(np.fft.fft(e)) ** 2 for e in rows)
             if not np.all(np.isfinite(spec)):
                 return v + [("C06:laser-peak", "the spectrum of the returned samples is not finite")]
-            f = np.fft.fftfreq(n, d=1 / fs)
+            step = res.get("tstep") or 1 / fs          # spacing of the time grid actually passed (1 for np.arange(N))
+            fsg = 1 / step
+            f = np.fft.fftfreq(n, d=step)
             kpk = int(np.argmax(spec))
             df = case["df"] or 0.0
             dist = abs(f[kpk] - df)
-            dist = min(dist, abs(dist - fs))          # +-fs/2 are the same bin
-            if not (dist <= fs / n * (1 + 1e-9)):
-                v.append(("C06:laser-peak", f"spectral peak at {f[kpk]:.6g} Hz, df={df:.6g} Hz, bin {fs / n:.6g} Hz"))
+            dist = min(dist, abs(dist - fsg))          # +-fs/2 are the same bin
+            if not (dist <= fsg / n * (1 + 1e-6)):
+                v.append(("C06:laser-peak", f"spectral peak at {f[kpk]:.6g}, df={df:.6g}, bin {fsg / n:.6g} (time grid {case.get('tdtype', 'float64')}, step {step:.6g})"))
     return v
 
 
@@ -914,7 +937,7 @@ def features(case, res):
     f = ["kind=" + case["kind"], "status=" + str(res.get("status"))]
     if case["kind"] == "laser":
         f += [f"laser:lw={'y' if case['lw'] is not None else 'n'}", f"laser:rin={'y' if case['rin'] is not None else 'n'}",
-              f"laser:df={'y' if case['df'] is not None else 'n'}", f"N={case['n']}"]
+              f"laser:df={'y' if case['df'] is not None else 'n'}", f"N={case['n']}", "laser:t=" + case.get("tdtype", "float64")]
     else:
         fl = case["field"]
         f += [f"npol={fl['npol']}", "noise=" + fl["noise_kind"], "dtype=" + fl["dtype"], f"N={fl['n']}"]
@@ -940,7 +963,7 @@ def nontrivial_key(case, res):
     if not rs or any(r["status"] != "ok" for r in rs):
         return None
     if case["kind"] == "laser":
-        return ("laser", case["n"], case["lw"] is not None, case["rin"] is not None, case["df"], case["p"]) if case["n"] >= 2 else None
+        return ("laser", case["n"], case["lw"] is not None, case["rin"] is not None, case["df"], case["p"], case.get("tdtype")) if case["n"] >= 2 else None
     fl = case["field"]
     if fl["n"] < 2 or not any(abs(re) + abs(im) > 0 for row in fl["sig"] for re, im in row):
         return None
